@@ -461,11 +461,81 @@ Proof.
       * right. right. rewrite E1. apply orb_true_r.
 Qed.
 
+Lemma occ_firstn_skipn k n l : (occ k (firstn n l) + occ k (skipn n l))%nat = occ k l.
+Proof. rewrite <- occ_app, firstn_skipn. reflexivity. Qed.
+
+(* a finaliser of the batch terminates its context: the rest of the batch is dropped, the releases are made by PopContext *)
+Lemma step_runpfkill w w' j : Inv w -> wstep w (ERunPFKill j) = Some w' -> Inv w'.
+Proof.
+  intros [G K] H. unfold wstep in H. remember (S j) as n eqn:En in H. clear En.
+  destruct (closed (pl w)) eqn:C; [discriminate|].
+  unfold extPF, extAF in H. cbn [reg pendF pendR last oVals] in H.
+  unfold closed in C. destruct (reg (pl w)) as [r|] eqn:Hr; [|discriminate].
+  unfold extAR in H. cbn [reg pendR pendF last oVals] in H.
+  inversion H; subst w'; clear H.
+  assert (G' : NoDup (keys r)) by (unfold GInv, regList in G; rewrite Hr in G; exact G).
+  fold finAll.
+  split. { unfold GInv. cbn [pl regList reg]. constructor. }
+  intros k. specialize (K k). rewrite view_env. cbn [regList reg pendF pendR closed lookup find].
+  set (vs := keys (sort_desc (pendF (pl w)))).
+  pose proof (occ_firstn_skipn k n vs) as FS.
+  assert (OV : occ k vs = nF w k) by (unfold vs; rewrite occ_keys_sort; reflexivity).
+  set (a := occ k (firstn n vs)) in *. set (b := occ k (skipn n vs)) in *.
+  rewrite finc_emit_rel, relc_emit_rel, finc_emit_fin, relc_emit_fin, occ_keys_sort, far_emit_rel, occ_keys_app.
+  unfold wantsF, wantsR. rewrite lastFlags_emit_rel, lastFlags_emit_fin. fold (wantsF k (tr w)) (wantsR k (tr w)).
+  rewrite occ_keys_filter by (rewrite keys_map_same by apply finAll_key; exact G').
+  rewrite lookup_map by apply finAll_key.
+  rewrite !mem_keys_occ, occ_keys_sort. cbn [app]. rewrite (occ_keys_filter notFin k r G').
+  fold a b. rewrite OV.
+  fold (nR w k). change (occ k (keys [])) with 0%nat.
+  assert (LK : look w k = lookup k r) by (unfold look, regList; rewrite Hr; reflexivity).
+  assert (CL : closed (pl w) = false) by (unfold closed; rewrite Hr; reflexivity).
+  destruct K as [A1 A2 A3 A4 A5 A6 A7 A8 A9 A10 A11 A12 A13 A14].
+  unfold deadV, owesRV, owesFV in *. cbn [view vLook vNF vNR vClosed vDrop vHeld vArmed vFinc vRelc vFar vWF vWR vLost] in *.
+  rewrite LK, CL in *.
+  assert (FAR : finAfterRel k (epoch k (emit Fin (firstn n vs) (tr w))) = false).
+  { rewrite far_emit_fin; [exact A10|]. fold a.
+    destruct (Nat.eq_dec (relc k (tr w)) 1) as [E1|E1]; [|right; lia].
+    destruct (A9 E1) as [?|((_ & _ & _ & _ & Z) & _)]; [discriminate|left; lia]. }
+  rewrite FAR.
+  assert (FC : (a + finc k (tr w) <= 1)%nat).
+  { destruct (Nat.eq_dec (nF w k) 1) as [E1|E1]; [destruct (A2 E1) as (_ & _ & _ & F0 & _); lia|lia]. }
+  destruct (lookup k r) as [c|] eqn:L; cbn [option_map].
+  - assert (NR0 : nR w k = 0%nat).
+    { destruct (Nat.eq_dec (nR w k) 1) as [E1|E1]; [|lia]. destruct (A6 E1) as ((_ & _ & _ & ? & _) & _). discriminate. }
+    assert (RC : relc k (tr w) <> 1%nat).
+    { intros E1. destruct (A9 E1) as [?|((_ & _ & _ & ? & _) & _)]; discriminate. }
+    rewrite NR0. unfold notRel. rewrite finAll_rel.
+    constructor; unfold deadV, owesRV, owesFV; cbn [vLook vNF vNR vClosed vDrop vHeld vArmed vFinc vRelc vFar vWF vWR vLost];
+      try lia; try discriminate; auto.
+    + destruct (eRel c) eqn:ER; cbn [negb]; [lia|]. rewrite (A7 c eq_refl ER). lia.
+    + intros WR. left. destruct (A12 WR) as [?|(_ & [(c' & Hc & ER)|?])]; [lia| |lia].
+      inversion Hc; subst c'. rewrite ER. cbn [negb]. rewrite (A7 c eq_refl ER). lia.
+    + intros WF. destruct (A13 WF) as [E1|[(_ & [(c' & Hc & EF')|E1])|E1]].
+      * left. lia.
+      * inversion Hc; subst c'. right. right. unfold notFin. rewrite EF'. cbn [negb Nat.eqb].
+        rewrite orb_true_r. reflexivity.
+      * destruct (Nat.eq_dec a 1) as [Ea|Ea].
+        -- left. destruct (A2 E1) as (_ & _ & _ & F0 & _). lia.
+        -- right. right. assert (b = 1%nat) by lia. rewrite H. reflexivity.
+      * right. right. rewrite E1. rewrite !orb_true_r. reflexivity.
+  - constructor; unfold deadV, owesRV, owesFV; cbn [vLook vNF vNR vClosed vDrop vHeld vArmed vFinc vRelc vFar vWF vWR vLost];
+      try lia; try discriminate; auto.
+    + intros WR. left. destruct (A12 WR) as [?|(_ & [(c' & Hc & ER)|?])]; [|discriminate|].
+      * destruct (Nat.eq_dec (nR w k) 1) as [E1|E1]; [|lia]. destruct (A6 E1) as (_ & Z). lia.
+      * destruct (A6 H) as (_ & Z). lia.
+    + intros WF. destruct (A13 WF) as [E1|[(_ & [(c' & Hc & EF')|E1])|E1]]; [left; lia|discriminate| |].
+      * destruct (Nat.eq_dec a 1) as [Ea|Ea].
+        -- left. destruct (A2 E1) as (_ & _ & _ & F0 & _). lia.
+        -- right. right. assert (b = 1%nat) by lia. rewrite H. reflexivity.
+      * right. right. rewrite E1. rewrite !orb_true_r. reflexivity.
+Qed.
+
 Lemma step_inv w w' e : Inv w -> wstep w e = Some w' -> Inv w'.
 Proof.
   destruct e.
   - apply step_mark. - apply step_drop. - apply step_gogc. - apply step_res. - apply step_finret.
-  - apply step_runpf. - apply step_runpr. - apply step_closef. - apply step_pop.
+  - apply step_runpf. - apply step_runpr. - apply step_closef. - apply step_runpfkill. - apply step_pop.
 Qed.
 
 Lemma wrun_inv es : forall w w', Inv w -> wrun w es = Some w' -> Inv w'.
